@@ -338,7 +338,23 @@ class HeapMixin:
         ext = self.extern_base_getattr(recv, ci, attr, node)
         if ext is not NotImplemented:
             return ext
+        if attr in self.init_assigned_fields(ci) and ci.qualname in self.layouts and attr not in self.layouts[ci.qualname]:
+            # the real __init__ creates this attribute but the verified layout does not describe it (a field added
+            # after the contracts were written): undecided, never a spurious AttributeError path
+            raise Unsupported('attribute %s.%s is assigned in __init__ but is not part of the verified layout' % (ci.qualname, attr))
         self.raise_builtin('AttributeError', node=node)
+
+    def init_assigned_fields(self, ci):
+        key = ('init-fields', ci.qualname)
+        if key not in self.class_attr_cache:
+            out = set()
+            init = self.P.lookup_method(ci, '__init__')
+            if init is not None:
+                for st in ast.walk(init.node):
+                    if isinstance(st, ast.Attribute) and isinstance(st.ctx, ast.Store) and isinstance(st.value, ast.Name) and st.value.id == 'self':
+                        out.add(st.attr)
+            self.class_attr_cache[key] = out
+        return self.class_attr_cache[key]
 
     def class_attr_value(self, ci, attr, expr):
         key = (ci.qualname, attr)
